@@ -369,3 +369,109 @@ Proof.
   rewrite A2, A1, Ed. apply spec_crypt_involution, canon_abs_ok.
   apply (heap_get_valid _ _ _ (R_valid _ _ HR) Hg).
 Qed.
+
+(* ------------------------------------------------------------------ C09: the decoders *)
+(* status numbers as the public header defines them (generated constants) *)
+Definition finish_out (a : astate) (next : N) (idx : list N) (coin : N) (ok : bool) (lang : option nat) : out :=
+  let c := axor_coin idx coin in
+  if negb (spec_eval c =? 0) then OutStatus ST_CHECKSUM None None
+  else if negb ok then OutStatus ST_MEMORY None None
+  else if negb (spec_supported (as_mask a) (a_features (spec_seed_of_indices c))) then OutStatus ST_UNSUPPORTED None None
+  else OutStatus ST_OK (Some next) lang.
+
+Lemma afinish_out a idx coin ok lang : snd (afinish a idx coin ok lang) = finish_out a (as_next a) idx coin ok lang.
+Proof.
+  unfold afinish, finish_out. cbv zeta.
+  destruct (spec_eval (axor_coin idx coin) =? 0); cbn [negb snd]; [|reflexivity].
+  destruct ok; cbn [negb snd]; [|reflexivity].
+  destruct (spec_supported _ _); reflexivity.
+Qed.
+
+(* automatic detection: the tokens are the fields of the (lazily) normalised input; the languages
+   considered are exactly those that recognise all 16 tokens; none -> LANG, one -> that language's
+   result, two or more -> MULT_LANG whatever the check values *)
+Theorem decode_auto_spec sgn cs a str coin ok : R cs a -> no_nul str -> coin < 2048 ->
+  let toks := spec_tokens (fst (spec_norm (dp_nfkd (st_deps cs)) str)) in
+  outp (step sgn langs cs (OpDecode str coin ok)) =
+    if negb (Nat.eqb (length toks) 16) then OutStatus ST_NUM_WORDS None None
+    else match matching langs 0 toks with
+         | [] => OutStatus ST_LANG None None
+         | [(li, idx)] => finish_out a (st_next cs) idx coin ok (Some li)
+         | _ => OutStatus ST_MULT_LANG None None
+         end.
+Proof.
+  intros HR Hs Hc toks. destruct (sim_decode sgn cs a str coin ok HR Hs Hc) as [S _].
+  unfold outp. rewrite S. cbn [astep]. rewrite <- (R_deps _ _ HR). fold toks.
+  destruct (Nat.eqb (length toks) 16); cbn [negb snd]; [|reflexivity].
+  destruct (matching langs 0 toks) as [|[li idx] [|? ?]]; cbn [snd]; try reflexivity.
+  rewrite afinish_out, (R_next _ _ HR). reflexivity.
+Qed.
+
+Theorem decode_explicit_spec sgn cs a str coin li L ok : R cs a -> no_nul str -> coin < 2048 ->
+  nth_error langs li = Some L ->
+  let toks := spec_tokens (fst (spec_norm (dp_nfkd (st_deps cs)) str)) in
+  outp (step sgn langs cs (OpDecodeExplicit str coin li ok)) =
+    if negb (Nat.eqb (length toks) 16) then OutStatus ST_NUM_WORDS None None
+    else match spec_lookup_all L toks with
+         | None => OutStatus ST_LANG None None
+         | Some idx => finish_out a (st_next cs) idx coin ok None
+         end.
+Proof.
+  intros HR Hs Hc HL toks. destruct (sim_decodex sgn cs a str coin li ok HR Hs Hc) as [S _].
+  unfold outp. rewrite S. cbn [astep]. rewrite HL, <- (R_deps _ _ HR). fold toks.
+  destruct (Nat.eqb (length toks) 16); cbn [negb snd]; [|reflexivity].
+  destruct (spec_lookup_all L toks); cbn [snd]; [|reflexivity].
+  rewrite afinish_out, (R_next _ _ HR). reflexivity.
+Qed.
+
+(* the candidates are exactly the registered languages that recognise every token *)
+Theorem matching_iff ls li0 toks li idx :
+  In (li, idx) (matching ls li0 toks) <->
+  exists L, nth_error ls (li - li0) = Some L /\ (li0 <= li)%nat /\ spec_lookup_all L toks = Some idx.
+Proof.
+  revert li0. induction ls as [|L ls IH]; intros li0; cbn [matching].
+  - split; [intros []|]. intros (L&H&_). destruct (li - li0)%nat; discriminate.
+  - assert (Hrec : In (li, idx) (matching ls (S li0) toks) <->
+             exists L0, nth_error (L :: ls) (li - li0) = Some L0 /\ (S li0 <= li)%nat /\ spec_lookup_all L0 toks = Some idx).
+    { rewrite IH. split; intros (L0&H1&H2&H3); exists L0.
+      - replace (li - li0)%nat with (S (li - S li0)) by lia. cbn [nth_error]. repeat split; assumption.
+      - replace (li - li0)%nat with (S (li - S li0)) in H1 by lia. cbn [nth_error] in H1. repeat split; assumption. }
+    destruct (spec_lookup_all L toks) as [idx0|] eqn:E.
+    + cbn [In]. rewrite Hrec. split.
+      * intros [H|(L0&H1&H2&H3)]; [injection H as <- <-; exists L; rewrite Nat.sub_diag; repeat split; [lia|exact E] |
+                                   exists L0; repeat split; [exact H1 | lia | exact H3]].
+      * intros (L0&H1&H2&H3). destruct (Nat.eq_dec li li0) as [->|Hne].
+        -- left. rewrite Nat.sub_diag in H1. cbn in H1. injection H1 as <-. congruence.
+        -- right. exists L0. repeat split; [exact H1 | lia | exact H3].
+    + rewrite Hrec. split.
+      * intros (L0&H1&H2&H3). exists L0. repeat split; [exact H1 | lia | exact H3].
+      * intros (L0&H1&H2&H3). destruct (Nat.eq_dec li li0) as [->|Hne].
+        -- rewrite Nat.sub_diag in H1. cbn in H1. injection H1 as <-. congruence.
+        -- exists L0. repeat split; [exact H1 | lia | exact H3].
+Qed.
+
+(* a language recognises all tokens exactly when each token is accepted by one of its words,
+   and the indices are those words' positions *)
+Lemma spec_find_iff L t j : In L langs -> no_nul t ->
+  (spec_find L t = Some j <-> (j < 2048)%nat /\ accepts_b L t (nth j (l_words L) []) = true).
+Proof.
+  intros HL Hn. rewrite <- (search_accepts true L t j HL Hn), (search_is_spec_find true L t HL Hn).
+  split; [intros ->; reflexivity | intros H; injection H as H; exact H].
+Qed.
+
+Theorem lookup_all_iff L toks idx : In L langs -> Forall no_nul toks ->
+  (spec_lookup_all L toks = Some idx <->
+   Forall2 (fun t i => exists j, i = N.of_nat j /\ (j < 2048)%nat /\ accepts_b L t (nth j (l_words L) []) = true) toks idx).
+Proof.
+  intros HL Hn. unfold spec_lookup_all. rewrite lookup_stripped_spec. revert idx.
+  induction Hn as [|t toks Ht Hn IH]; intros idx.
+  - split; [intros H; injection H as <-; constructor | intros H; inversion H; reflexivity].
+  - split.
+    + destruct (spec_find L t) as [j|] eqn:Ej; [|discriminate].
+      match goal with |- context [match ?X with Some _ => _ | None => _ end = _] => destruct X as [js|] eqn:Ejs end; [|discriminate].
+      intros H. injection H as <-. constructor; [|apply IH; reflexivity].
+      exists j. split; [reflexivity|]. apply spec_find_iff; assumption.
+    + intros H. inversion H as [|? i ? is (j&->&Hj&Ha) Hrest]; subst.
+      assert (Ej : spec_find L t = Some j) by (apply spec_find_iff; [assumption..|split; assumption]).
+      rewrite Ej. apply IH in Hrest. rewrite Hrest. reflexivity.
+Qed.
